@@ -84,6 +84,10 @@ class AsyncTask(futures.FutureBase):
             )
         if _debug_options.COLLECT_PERF_STATS:
             self._id = profiler.incr_counter()
+        else:
+            # COLLECT_PERF_STATS may be switched on while this task is alive: _computed() then
+            # collects its stats and needs an id (the Cython declaration defaults it to 0 too)
+            self._id = 0
 
     def can_continue(self):
         """Indicates whether this async task has more steps to execute.
